@@ -7,7 +7,7 @@ Require Import PV.Stack.Model PV.Stack.Proofs PV.Comb.PState PV.Comb.Bytes PV.Co
 Require Import PV.Comb.Frame PV.Comb.Contracts PV.Comb.Utf8 PV.Comb.Utf8b PV.Comb.Utf8c.
 Require Import PV.Peg.Ast PV.Peg.Spec PV.Peg.VmCompile.
 Require Import PV.Peg.Refine0 PV.Peg.Refine1 PV.Peg.Refine2 PV.Peg.Refine3 PV.Peg.Refine4 PV.Peg.Refine5 PV.Peg.Refine5b
-  PV.Peg.Refine6 PV.Peg.Refine7 PV.Peg.Refine8 PV.Peg.Refine9.
+  PV.Peg.Refine6 PV.Peg.Refine7 PV.Peg.Refine8 PV.Peg.Refine9 PV.Peg.Refine12 PV.Peg.Refine13.
 
 (* the forest of a token queue in stream order (what `Pairs` shows) *)
 Definition forest (q : list qtoken) : list tree := forest_of (map conv q) 0 (length q).
@@ -143,6 +143,99 @@ Proof.
       rewrite Hq, Hq' in Heq. discriminate.
   - intros (n & p & sg & Es). pose proof (parse_refines_spec r detail n IO) as H. rewrite Es in H.
     destruct H as (m & [(q & Hq & Hf)|[Hc _]]); [eauto|congruence].
+Qed.
+
+(* ---------- termination transfers from the VM to the Spec: no hypothesis on the Spec side ---------- *)
+Theorem vm_terminates_spec_explicit m e a emit p sg s :
+  in_fragment OG extras uranges pp e = true -> rok OG K e = true -> lits_valid e ->
+  rep w a emit p sg s ->
+  (exists s', exec cfg E m (vm_expr OG uranges e) s = ROk s' \/ exec cfg E m (vm_expr OG uranges e) s = RErr s') ->
+  ev m a emit (embed e) p sg <> SFuel.
+Proof.
+  intros Fr Ro Li R (s' & Hs).
+  apply (vm_terminates_spec OG extras uranges pp cfg w Hcfg HG m e a emit p sg Fr Ro Li s
+           (exec cfg E m (vm_expr OG uranges e) s) R).
+  - split; [destruct Hs as [-> | ->]; discriminate|]. exists m. split; [apply Nat.le_refl|reflexivity].
+  - intros k Hk. destruct Hs as [Hs|Hs]; congruence.
+Qed.
+
+Lemma vm_parse_ok_inv m r detail q : vm_parse m r detail = OPairs q ->
+  exists s', exec cfg E m (vm_call OG uranges r) (init w None detail) = ROk s' /\ q = rev (queue s').
+Proof.
+  unfold vm_parse, run_state, vm_start. destruct (exec cfg E m _ _) as [s'|s'|k|]; cbn [outcome_of]; try discriminate.
+  - destruct (fixedlim cfg && limit_reached s'); [discriminate|]. intros [= <-]. eauto.
+  - destruct (limit_reached s'); discriminate.
+Qed.
+
+Lemma vm_parse_err_inv m r detail ps ns ap : vm_parse m r detail = OParsingError ps ns ap ->
+  exists s', exec cfg E m (vm_call OG uranges r) (init w None detail) = RErr s'.
+Proof.
+  unfold vm_parse, run_state, vm_start. destruct (exec cfg E m _ _) as [s'|s'|k|]; cbn [outcome_of]; try discriminate; eauto.
+  destruct (fixedlim cfg && limit_reached s'); discriminate.
+Qed.
+
+Lemma vm_parse_det m m' r detail :
+  vm_parse m r detail <> OOutOfFuel -> vm_parse m' r detail <> OOutOfFuel -> vm_parse m r detail = vm_parse m' r detail.
+Proof.
+  unfold vm_parse, run_state. intros H1 H2. f_equal. apply exec_fuel_irrelevant.
+  - intros Ho. rewrite Ho in H1. apply H1. reflexivity.
+  - intros Ho. rewrite Ho in H2. apply H2. reflexivity.
+Qed.
+
+(* soundness of a successful VM parse, PEEK / POP allowed: the Spec matches with the same forest *)
+Theorem parse_ok_sound r detail m q : ident_ok OG uranges pp r = true ->
+  vm_parse m r detail = OPairs q ->
+  exists n p sg, spec_parse G extras (uprop uranges) w n r = SMatch p sg (forest q).
+Proof.
+  intros IO Hq. destruct (vm_parse_ok_inv m r detail q Hq) as (s' & Hs & _).
+  assert (T : spec_parse G extras (uprop uranges) w m r <> SFuel).
+  { apply (vm_terminates_spec_explicit m (OIdent r) NonAtomic true 0 [] (init w None detail) IO eq_refl Logic.I (rep_init detail)).
+    exists s'. left. exact Hs. }
+  pose proof (parse_refines_spec r detail m IO) as H.
+  destruct (spec_parse G extras (uprop uranges) w m r) as [p sg f| |] eqn:Es; [| |congruence].
+  - exists m, p, sg. rewrite Es. f_equal. destruct H as (m' & [(q' & Hq' & Hf')|[_ Hc]]).
+    + pose proof (vm_parse_det m m' r detail ltac:(congruence) ltac:(congruence)) as Heq.
+      rewrite Hq, Hq' in Heq. injection Heq as <-. symmetry. exact Hf'.
+    + pose proof (vm_parse_det m m' r detail ltac:(congruence) ltac:(congruence)) as Heq. congruence.
+  - exfalso. destruct H as (m' & [(ps & ns & ap & Hq')|[_ Hc]]);
+      pose proof (vm_parse_det m m' r detail ltac:(congruence) ltac:(congruence)) as Heq; congruence.
+Qed.
+
+(* and of a failed one *)
+Theorem parse_err_sound r detail m ps ns ap : ident_ok OG uranges pp r = true ->
+  vm_parse m r detail = OParsingError ps ns ap ->
+  exists n, spec_parse G extras (uprop uranges) w n r = SFail.
+Proof.
+  intros IO Hq. destruct (vm_parse_err_inv m r detail ps ns ap Hq) as (s' & Hs).
+  assert (T : spec_parse G extras (uprop uranges) w m r <> SFuel).
+  { apply (vm_terminates_spec_explicit m (OIdent r) NonAtomic true 0 [] (init w None detail) IO eq_refl Logic.I (rep_init detail)).
+    exists s'. right. exact Hs. }
+  pose proof (parse_refines_spec r detail m IO) as H.
+  destruct (spec_parse G extras (uprop uranges) w m r) as [p sg f| |] eqn:Es; [| |congruence].
+  - exfalso. destruct H as (m' & [(q' & Hq' & Hf')|[_ Hc]]);
+      pose proof (vm_parse_det m m' r detail ltac:(congruence) ltac:(congruence)) as Heq; congruence.
+  - exists m. exact Es.
+Qed.
+
+(* both directions, unconditionally, for grammars without PEEK / POP *)
+Theorem parse_iff_spec_total r detail f : pp = false -> ident_ok OG uranges pp r = true ->
+  ((exists m q, vm_parse m r detail = OPairs q /\ forest q = f) <->
+   (exists n p sg, spec_parse G extras (uprop uranges) w n r = SMatch p sg f)).
+Proof.
+  intros Hpp IO. split.
+  - intros (m & q & Hq & <-). eapply parse_ok_sound; eauto.
+  - intros (n & p & sg & Es). pose proof (parse_refines_spec r detail n IO) as H. rewrite Es in H.
+    destruct H as (m & [(q & Hq & Hf)|[Hc _]]); [eauto|congruence].
+Qed.
+
+Theorem parse_fail_iff_spec_total r detail : pp = false -> ident_ok OG uranges pp r = true ->
+  ((exists m ps ns ap, vm_parse m r detail = OParsingError ps ns ap) <->
+   (exists n, spec_parse G extras (uprop uranges) w n r = SFail)).
+Proof.
+  intros Hpp IO. split.
+  - intros (m & ps & ns & ap & Hq). eapply parse_err_sound; eauto.
+  - intros (n & Es). pose proof (parse_refines_spec r detail n IO) as H. rewrite Es in H.
+    destruct H as (m & [(ps & ns & ap & Hq)|[Hc _]]); [eauto 6|congruence].
 Qed.
 
 End Top.
